@@ -391,7 +391,16 @@ def check_property(prop, tier, seed, reg):
             continue
         seen_known.add(key)
         out_lines.append("KNOWN-FINDING: property=%s %s" % (prop, k.get("what")))
-    kani_cex = [k for k in kani_results if k.get("status") == "failed"]
+    # a harness that an OPEN known finding names is reported as that finding, never used as the counterexample twin of something else
+    known_harness = {kk.get("kani_harness"): kk for kk in kf if kk.get("kani_harness")}
+    for k in kani_results:
+        if k.get("status") == "failed" and k["harness"] in known_harness:
+            kk = known_harness[k["harness"]]
+            k["known_finding"] = kk.get("id")
+            if kk.get("id") not in seen_known:
+                seen_known.add(kk.get("id"))
+                out_lines.append("KNOWN-FINDING: property=%s %s" % (prop, kk.get("what")))
+    kani_cex = [k for k in kani_results if k.get("status") == "failed" and not k.get("known_finding")]
     idx = 0
     for R, f in violations:
         idx += 1
@@ -491,6 +500,8 @@ def write_evidence(prop, tier, seed, P, results, kani_results, vio_count, wall, 
             assumptions.append("unit %s: %s %s" % (R.name, R.status, R.reason[:400]))
     bounded = []
     for k in kani_results:
+        if k.get("known_finding"):
+            continue      # listed under known_findings_hit: a recorded open finding is not among the obligations this run claims
         if k.get("kind") in ("complete", "contract") and k.get("status") in ("ok", "failed"):
             obligations += 1
             if k["status"] == "ok":
@@ -516,7 +527,7 @@ def write_evidence(prop, tier, seed, P, results, kani_results, vio_count, wall, 
             canaries=dict(expected_to_fail=can_e, failed_as_expected=can_f),
             units=[dict(unit=R.name, status=R.status, verified=R.verified, errors=R.errors, runs=R.runs,
                         wall_s=round(R.wall_s, 2)) for R in results],
-            known_findings_hit=[k.get("id") for k, f in known_hits],
+            known_findings_hit=[k.get("id") for k, f in known_hits] + [k["known_finding"] for k in kani_results if k.get("known_finding")],
         ),
         assumptions=assumptions,
         wall_s=round(wall, 2),
